@@ -311,6 +311,28 @@ func (in *inst) step(c *vt.Ctx, st Step) *vt.Deviation {
 	if st.Detach {
 		return in.detach(c, st, mk)
 	}
+	if st.Set == "empty-root" {
+		// RemoveAll of the view's own root, by the administrator: the root cannot go away (the call
+		// reports that), but RemoveAll "removes everything it can": afterwards the view is empty and
+		// so is the directory in the parent. Last step of a history.
+		_ = s.v.SetUser(in.users1[0])
+		out := s.r.Do(fsx.Op{K: "RemoveAll", P: st.Op.P})
+		if out.Err == "PANIC" {
+			return mk("panic", out.Note)
+		}
+		if es, err := s.v.ReadDir("/"); err != nil || len(es) != 0 {
+			return mk("root-not-emptied", fmt.Sprintf("RemoveAll(%q) through the view -> %s; the view's root still lists %d entries (%v)", st.Op.P, out, len(es), err))
+		}
+		d := s.dir
+		if d == "" {
+			d = "/"
+		}
+		_ = in.p.SetUser(in.users1[0])
+		if es, err := in.p.ReadDir(d); d != "/" && (err != nil || len(es) != 0) {
+			return mk("root-not-emptied", fmt.Sprintf("RemoveAll(%q) through the view -> %s; %s in the parent still lists %d entries (%v)", st.Op.P, out, d, len(es), err))
+		}
+		return nil
+	}
 	o := st.Op
 	out := s.r.Do(o)
 	if out.Err == "PANIC" && out.Val != "nil-handle" {
@@ -563,6 +585,18 @@ func TestCheck(t *testing.T) {
 					}
 				}
 				c.Label("step:" + st.Set + st.Op.K)
+			}
+		}
+		if last := rapid.IntRange(0, 7).Draw(t, "last"); last == 1 && len(in.sides) > 1 {
+			vi := rapid.IntRange(1, len(in.sides)-1).Draw(t, "empty-view")
+			if in.sides[vi].dir != "" && in.sides[vi].dir != "/w" {
+				st := Step{On: vi, Set: "empty-root", Op: fsx.Op{P: rapid.SampledFrom([]string{"/", "/a/..", "/."}).Draw(t, "root-spelling")}}
+				cs.Steps = append(cs.Steps, st)
+				if dev := in.step(c, st); dev != nil {
+					return &vt.Failure{Dev: dev, Replay: cs}
+				}
+				c.Label("step:empty-root")
+				return nil
 			}
 		}
 		if rapid.IntRange(0, 3).Draw(t, "detach") == 0 {
